@@ -68,6 +68,7 @@ def finished (c : Cfg ρ σ) : Bool := c.pcs.all List.isEmpty
 def pendingAdds : List (Act ρ) → List ρ
   | [] => []
   | Act.add r :: rest => r :: pendingAdds rest
-  | _ :: rest => pendingAdds rest
+  | Act.check :: rest => pendingAdds rest
+  | Act.publish :: rest => pendingAdds rest
 
 end Ymq.Sched
